@@ -21,10 +21,24 @@ means (`IsNumeral`, `digitsValue`) without reference to the model's `fromStrRadi
   `convert_int_error_kind`, `convert_int_never_wrong`.
 * T3.4 booleans: `convert_bool_table` (+ `strBytes_ON` … for the ten spellings).
 * strings/blocks: `convert_str_bytes`, `convert_bytes_bytes`.
-* T3.3 floats: `convert_f64_iff`, `convert_f32_iff`, and the rounding theorems
-  (`roundRat_…`, in the second half of the file).
+* T3.3 floats: `convert_f64_iff`, `convert_f32_iff` (conversion IS `parseFloat`), then the
+  arithmetic heart, for every format with `mbits ≥ 1`, `ebits ≥ 2` and ALL `n/d` — normal,
+  sub-normal, underflow to zero, overflow: `roundRat_finite_or_inf`, `roundRat_nearest`
+  (nearest, ties to even; nothing is missing, so no `_partial`), `roundRat_nearest_finite`,
+  `roundRat_inf_iff`, `roundRat_zero_iff`, `roundDec_shortcuts_sound`, `parseNumberBody_iff`
+  (the number grammar reads what is written), `parseFloat_correct` (text → exact rational →
+  nearest float, end to end), `parseFloat_nonnumber`.
+  The value of a bit pattern is `fscaled f bits / funitDen f` (`Scpi/Spec/Numerals.lean`;
+  `fscaled_spec` links it to significand and exponent); distances are cross-multiplied
+  (`fdist`), so no rational numbers are needed.
+
+NOT covered here (a fact about the SCPI recogniser `decimal` of Lex.lean, not about
+conversion): that the text of every `.dec s` the parser produces is an `IsDecimalText`
+after its sign, so that -120 can never arise for a float parameter from parsed input.
 -/
 import Scpi.Proofs.ConvInt
+import Scpi.Proofs.ConvDec
+import Scpi.Proofs.ConvDecText
 import Scpi.Proofs.RespBytes
 
 namespace Scpi
@@ -374,6 +388,219 @@ theorem convert_f64_dec (s : Bytes) (b : Nat) :
 theorem convert_f32_dec (s : Bytes) (b : Nat) :
     convert .f32 (.dec s) = .ok (.f32 b) ↔ parseFloat fmt32 s = some b := by
   rw [(convert_f32_iff _ _).1]; simp
+
+/-! ## T3.3 — floats: correct rounding
+
+`roundRat f n d` is the function that turns the exact rational `n/d` into a bit pattern
+(without sign).  The value of a pattern `u ≤ f.infBits` is `fscaled f u / funitDen f`
+(for `u = f.infBits` this is `2^(expMax - bias)`, the value the first binade beyond the
+finite range would start with — the reference point IEEE 754 uses to decide overflow),
+and `fdist f n d u = |fscaled f u · d - n · funitDen f|` is `|value u - n/d|` multiplied
+by the positive constant `d · funitDen f`.  -/
+
+/-- The grid value of a pattern from its significand and exponent:
+`fscaled = fmant · 2^(fexp - (1 - bias - mbits))`, the exponent difference being
+`E - 1` (`0` for sub-normals); i.e. `value = fmant · 2^fexp = fscaled / 2^(bias+mbits-1)`. -/
+theorem fscaled_spec (f : FloatFmt) (bits : Nat) :
+    0 ≤ fexp f bits + f.bias + f.mbits - 1 ∧
+    fscaled f bits = fmant f bits * 2 ^ (fexp f bits + f.bias + f.mbits - 1).toNat := by
+  unfold fscaled fexp
+  by_cases h : f.expOf bits = 0
+  · rw [if_pos h, h]
+    have : ((1 : Int) - f.bias - f.mbits + f.bias + f.mbits - 1).toNat = 0 - 1 := by omega
+    rw [this]
+    exact ⟨by omega, rfl⟩
+  · rw [if_neg h]
+    have : ((f.expOf bits : Int) - f.bias - f.mbits + f.bias + f.mbits - 1).toNat =
+        f.expOf bits - 1 := by omega
+    rw [this]
+    exact ⟨by omega, rfl⟩
+
+/-- The grid is strictly increasing in the bit pattern (so patterns and values
+correspond one to one, `+0` ↦ 0, pattern 1 ↦ the smallest sub-normal, …). -/
+theorem fscaled_strictMono (f : FloatFmt) (u v : Nat) (huv : u < v) (hv : v ≤ f.infBits) :
+    fscaled f u < fscaled f v := fscaled_lt f u v huv hv
+
+/-- **(a) The result is a finite pattern or the infinity pattern** — never a NaN, never
+a pattern with the sign bit or beyond. -/
+theorem roundRat_finite_or_inf (f : FloatFmt) (hm : 1 ≤ f.mbits) (he : 2 ≤ f.ebits) (n d : Nat)
+    (hd : 0 < d) : roundRat f n d < f.infBits ∨ roundRat f n d = f.infBits := by
+  by_cases hn : n = 0
+  · subst hn
+    rw [roundRat_zero_num]
+    have := infBits_pos f hm he
+    omega
+  · exact Nat.lt_or_eq_of_le (roundRat_nearest' f hm he n d hn hd).1
+
+/-- **T3.3 — `roundRat` rounds to nearest, ties to even.**  For every format with at
+least one fraction bit and two exponent bits (binary32 and binary64 in particular) and
+every positive rational `n/d`: with `b = roundRat f n d`, for EVERY pattern `u` up to the
+infinity pattern,
+
+* `|value b - n/d| ≤ |value u - n/d|`  (nearest), and
+* if the distances are equal and `u ≠ b`, the fraction field of `b` is even (ties to even).
+
+This covers normal and sub-normal results, underflow to zero and overflow (the infinity
+pattern takes part with the value `2^(expMax-bias)`, see `roundRat_inf_iff`). -/
+theorem roundRat_nearest (f : FloatFmt) (hm : 1 ≤ f.mbits) (he : 2 ≤ f.ebits) (n d : Nat)
+    (hn : 0 < n) (hd : 0 < d) (u : Nat) (hu : u ≤ f.infBits) :
+    fdist f n d (roundRat f n d) ≤ fdist f n d u ∧
+    (fdist f n d (roundRat f n d) = fdist f n d u → u ≠ roundRat f n d →
+      f.fracOf (roundRat f n d) % 2 = 0) :=
+  (roundRat_nearest' f hm he n d (by omega) hd).2 u hu
+
+/-- The form with finite patterns only: a finite result is nearest among the finite
+values, ties to even. -/
+theorem roundRat_nearest_finite (f : FloatFmt) (hm : 1 ≤ f.mbits) (he : 2 ≤ f.ebits) (n d : Nat)
+    (hn : 0 < n) (hd : 0 < d) (_hb : roundRat f n d < f.infBits) (u : Nat) (hu : u < f.infBits) :
+    fdist f n d (roundRat f n d) ≤ fdist f n d u ∧
+    (fdist f n d (roundRat f n d) = fdist f n d u → u ≠ roundRat f n d →
+      f.fracOf (roundRat f n d) % 2 = 0) :=
+  roundRat_nearest f hm he n d hn hd u (Nat.le_of_lt hu)
+
+/-- **Overflow exactly from the midpoint up.**  The result is the infinity pattern iff
+`n/d ≥ (maxFinite + 2^(expMax-bias)) / 2 = maxFinite + ulp/2` — in particular ONLY IF;
+below that the result is finite.  (`fscaled_maxFinite`, `fscaled_inf` give the two grid
+values in closed form.) -/
+theorem roundRat_inf_iff (f : FloatFmt) (hm : 1 ≤ f.mbits) (he : 2 ≤ f.ebits) (n d : Nat)
+    (hd : 0 < d) :
+    roundRat f n d = f.infBits ↔
+      (fscaled f (f.infBits - 1) + fscaled f f.infBits) * d ≤ 2 * (n * funitDen f) :=
+  roundRat_inf_iff' f hm he n d hd
+
+/-- **Zero exactly up to half the smallest sub-normal**: `n/d ≤ 2^(-bias-mbits)`. -/
+theorem roundRat_zero_iff (f : FloatFmt) (hm : 1 ≤ f.mbits) (he : 2 ≤ f.ebits) (n d : Nat)
+    (hd : 0 < d) : roundRat f n d = 0 ↔ 2 * (n * funitDen f) ≤ d :=
+  roundRat_zero_iff' f hm he n d hd
+
+/-- **The magnitude shortcuts of `roundDec` are sound** for binary32 and binary64:
+`roundDec f mant exp10` (which answers infinity for `mant · 10^exp10 ≥ 10^400` and zero
+below `10^-400` without computing) equals `roundRat` applied to the exact value
+`mant · 10^exp10` as a fraction. -/
+theorem roundDec_shortcuts_sound (f : FloatFmt) (hf : f = fmt32 ∨ f = fmt64) (mant : Nat)
+    (exp10 : Int) : roundDec f mant exp10 = roundDecExact f mant exp10 := by
+  rcases hf with rfl | rfl
+  · exact roundDec_eq_exact fmt32 (by decide) (by decide) (by decide +kernel) (by decide +kernel)
+      mant exp10
+  · exact roundDec_eq_exact fmt64 (by decide) (by decide) (by decide +kernel) (by decide +kernel)
+      mant exp10
+
+/-- **Decimal text to float, end to end.**  If the text after an optional sign is a
+decimal number that `parseNumberBody` reads as `mant · 10^exp10`, then `parseFloat`
+delivers the correctly rounded pattern of exactly that rational (`roundDecExact`, i.e.
+`roundRat` — nearest, ties to even, by `roundRat_nearest`), with the sign bit set iff
+the text starts with `-`. -/
+theorem parseFloat_number (f : FloatFmt) (hf : f = fmt32 ∨ f = fmt64) (c : Nat) (rest : Bytes)
+    (mant : Nat) (exp10 : Int)
+    (h : parseNumberBody (if c = 45 ∨ c = 43 then rest else c :: rest) = some (mant, exp10)) :
+    parseFloat f (c :: rest) =
+      some (roundDecExact f mant exp10 + (if c = 45 then f.signBit else 0)) := by
+  unfold parseFloat
+  rw [← roundDec_shortcuts_sound f hf]
+  by_cases h45 : c = 45
+  · subst h45
+    simp only [true_or, if_true] at h
+    simp [h]
+  · by_cases h43 : c = 43
+    · subst h43
+      simp only [or_true, if_true] at h
+      simp [h]
+    · simp only [h45, h43, or_self, if_false] at h
+      simp [h45, h43, h]
+
+/-- **The number grammar reads what is written.**  `parseNumberBody s` (the grammar of
+`core::num::dec2flt`) succeeds with `(mant, exp10)` iff `s` is a decimal real literal
+— digits, optional `.` and digits, at least one digit in all, optional exponent
+`e`/`E` [sign] digits — and `mant · 10^exp10` is the number it denotes
+(`IsDecimalText`, `Scpi/Spec/Numerals.lean`). -/
+theorem parseNumberBody_iff (s : Bytes) (mant : Nat) (exp10 : Int) :
+    parseNumberBody s = some (mant, exp10) ↔ IsDecimalText s mant exp10 :=
+  parseNumberBody_iff' s mant exp10
+
+/-- **T3.3 end to end — decimal reals are correctly rounded.**  If the text after the
+optional sign is a decimal real literal denoting `mant · 10^exp10`, then `parseFloat`
+— hence `convert .f32` / `convert .f64` — delivers `roundRat` of exactly that rational
+(nearest, ties to even: `roundRat_nearest`; infinity/zero only beyond the midpoints:
+`roundRat_inf_iff`, `roundRat_zero_iff`), with the sign bit set iff the text starts
+with `-`. -/
+theorem parseFloat_correct (f : FloatFmt) (hf : f = fmt32 ∨ f = fmt64) (c : Nat) (rest : Bytes)
+    (mant : Nat) (exp10 : Int)
+    (h : IsDecimalText (if c = 45 ∨ c = 43 then rest else c :: rest) mant exp10) :
+    parseFloat f (c :: rest) =
+      some ((if exp10 ≥ 0 then roundRat f (mant * 10 ^ exp10.toNat) 1
+             else roundRat f mant (10 ^ (-exp10).toNat)) +
+            (if c = 45 then f.signBit else 0)) :=
+  parseFloat_number f hf c rest mant exp10 ((parseNumberBody_iff _ _ _).mpr h)
+
+theorem strBytes_nan' : strBytes "nan" = [110, 97, 110] := by
+  have h : "nan" = String.ofList ['n', 'a', 'n'] := rfl
+  rw [h, strBytes_ofList]; decide
+theorem strBytes_inf' : strBytes "inf" = [105, 110, 102] := by
+  have h : "inf" = String.ofList ['i', 'n', 'f'] := rfl
+  rw [h, strBytes_ofList]; decide
+theorem strBytes_infinity : strBytes "infinity" = [105, 110, 102, 105, 110, 105, 116, 121] := by
+  have h : "infinity" = String.ofList ['i', 'n', 'f', 'i', 'n', 'i', 't', 'y'] := rfl
+  rw [h, strBytes_ofList]; decide
+
+/-- **Text that is not a number.**  When the text after the optional sign is not a
+decimal number, `parseFloat` (as `f64::from_str`) accepts only `nan`, `inf` and
+`infinity` in any letter case, and fails on everything else — whence -120 in
+`convert_f64_iff`.  (The SCPI recogniser for decimal data never produces such text.) -/
+theorem parseFloat_nonnumber (f : FloatFmt) (c : Nat) (rest : Bytes)
+    (h : parseNumberBody (if c = 45 ∨ c = 43 then rest else c :: rest) = none) :
+    parseFloat f (c :: rest) =
+      (if (if c = 45 ∨ c = 43 then rest else c :: rest).map lowerAscii = [110, 97, 110] then
+        some (f.nanBits + (if c = 45 then f.signBit else 0))
+      else if (if c = 45 ∨ c = 43 then rest else c :: rest).map lowerAscii = [105, 110, 102] ∨
+          (if c = 45 ∨ c = 43 then rest else c :: rest).map lowerAscii =
+            [105, 110, 102, 105, 110, 105, 116, 121] then
+        some (f.infBits + (if c = 45 then f.signBit else 0))
+      else none) := by
+  unfold parseFloat
+  rw [strBytes_nan', strBytes_inf', strBytes_infinity]
+  by_cases h45 : c = 45
+  · subst h45
+    simp only [true_or, if_true] at h ⊢
+    simp [h]
+  · by_cases h43 : c = 43
+    · subst h43
+      simp only [or_true, if_true] at h ⊢
+      simp [h]
+    · simp only [h45, h43, or_self, if_false] at h ⊢
+      simp [h45, h43, h]
+
+/-! ### Non-vacuity (floats) -/
+
+/-- `0.1` is `0x3FB999999999999A` in binary64 … -/
+example : parseFloat fmt64 [48, 46, 49] = some 0x3FB999999999999A := by decide
+example : convert .f64 (.dec [48, 46, 49]) = .ok (.f64 0x3FB999999999999A) := by rfl
+/-- … and `16777217 = 2^24 + 1` is a tie in binary32, resolved to the even `2^24`. -/
+example : parseFloat fmt32 [49, 54, 55, 55, 55, 50, 49, 55] = some 0x4B800000 := by decide
+/-- `-2.5e-1` sets the sign bit. -/
+example : parseFloat fmt64 [45, 50, 46, 53, 101, 45, 49] = some (0x3FD0000000000000 + 2 ^ 63) := by
+  decide
+/-- Premise of `parseFloat_number` on `0.1`: mantissa 1, exponent -1. -/
+example : parseNumberBody [48, 46, 49] = some (1, -1) := by decide
+/-- Premise of `parseFloat_correct` on `2.5e-1`: it denotes `25 · 10^-2`. -/
+example : IsDecimalText [50, 46, 53, 101, 45, 49] 25 (-2) :=
+  ⟨[50], [53], [101, 45, 49], -1, by simp [AllDigits], by simp [AllDigits], by simp,
+   IsExponent.minus 101 [49] (Or.inr rfl) (by simp) (by simp [AllDigits]), Or.inr rfl,
+   by decide, by decide⟩
+/-- Overflow and underflow: `1e309` is infinity, `1e-400` is zero, `1e999999` and
+`1e-999999` take the shortcuts. -/
+example : parseFloat fmt64 [49, 101, 51, 48, 57] = some fmt64.infBits := by decide +kernel
+example : parseFloat fmt64 [49, 101, 45, 52, 48, 48] = some 0 := by decide +kernel
+example : roundDec fmt64 1 999999 = fmt64.infBits ∧ roundDec fmt64 1 (-999999) = 0 := by decide
+/-- The largest finite binary64 value and the overflow midpoint. -/
+example : roundRat fmt64 (2 ^ 1024 - 2 ^ 970 - 1) 1 = fmt64.infBits - 1 ∧
+    roundRat fmt64 (2 ^ 1024 - 2 ^ 970) 1 = fmt64.infBits := by decide +kernel
+/-- The smallest sub-normal `2^-1074` and the underflow midpoint `2^-1075` (tie → 0). -/
+example : roundRat fmt64 1 (2 ^ 1074) = 1 ∧ roundRat fmt64 1 (2 ^ 1075) = 0 ∧
+    roundRat fmt64 3 (2 ^ 1076) = 1 := by decide +kernel
+/-- Text that is decimal program data for SCPI but no number: -120; `ABC` → -104. -/
+example : convert .f64 (.dec [46]) = .error (.std .NumericDataError) :=
+  (convert_f64_iff _ (.f64 0)).2.1 _ rfl (by rw [parseFloat_nonnumber _ _ _ (by decide)]; decide)
+example : convert .f64 (.chars [65, 66, 67]) = .error (.std .DataTypeError) := by rfl
 
 end C03
 end Scpi
